@@ -242,6 +242,26 @@ func (f *RunningEventFilter) InnerFilter() (*AggregatedBloomFilter, error) {
 	return f.inner, nil
 }
 
+// WithWindow calls fn with the current window while holding the filter's read lock, so
+// that fn never observes an Insert or OnReorg half-way and the window cannot be swapped
+// between the check of its start and its use. It returns false, without calling fn, when
+// the current window does not start at fromBlock.
+func (f *RunningEventFilter) WithWindow(
+	fromBlock uint64,
+	fn func(window *AggregatedBloomFilter) error,
+) (bool, error) {
+	f.mu.RLock()
+	defer f.mu.RUnlock()
+
+	if err := f.ensureInit(); err != nil {
+		return false, err
+	}
+	if f.inner.fromBlock != fromBlock {
+		return false, nil
+	}
+	return true, fn(f.inner)
+}
+
 // OnReorg reverts the last processed block from the running filter. Writes
 // the persisted-filter deletion on backward boundary cross directly to
 // f.database; use [RunningEventFilter.OnReorgWithBatch] to commit it
